@@ -23,6 +23,7 @@ import time
 HERE = os.path.dirname(os.path.abspath(__file__))
 ROOT = os.path.dirname(HERE)
 LEAN = os.path.join(ROOT, 'lean')
+OUT = os.environ.get('VERIF_OUT') or ROOT          # evidence/ and replays/ go here
 sys.path.insert(0, HERE)
 os.environ.setdefault('PYTHONDONTWRITEBYTECODE', '1')
 # pamqp must not depend on the host time zone (C15): run the whole harness in a zone with a
@@ -37,33 +38,33 @@ T = 'Pamqp.Props.'
 # property -> (Lean modules, property theorems, Tie-A theorems, lanes, oracles)
 REGISTRY = {
     'C01': dict(mods=['C01', 'C03'], thms=['C01_catalogue_wf', 'C01_catalogue_count', 'C01_roundtrip_generic', 'C01_method_roundtrip', 'C01_scalar_args_exact', 'C01_none_table'],
-                tie=['tieA_table_mapping', 'tieA_methods', 'tieA_struct_formats', 'tieA_struct_uses', 'tieA_frame_struct_uses', 'tieA_frame_constants'],
-                lanes=['args/args.marshal,args.unmarshal', 'frame/frame.marshal,frame.unmarshal', 'enc_prim', 'dec_prim'], oracles=['c01']),
+                tie=['tieA_table_mapping', 'tieA_methods', 'tieA_struct_formats', 'tieA_struct_uses', 'tieA_envelope_struct_uses', 'tieA_frame_constants', 'tieA_codec_calls'],
+                lanes=['args/args.marshal,args.unmarshal', 'frame/frame.marshal.M,frame.unmarshal.M,frame.envelope', 'enc_prim', 'dec_prim'], oracles=['c01']),
     'C02': dict(mods=['C02'], thms=['C02_flags_wf', 'C02_flags_msb_first', 'C02_class_id', 'C02_roundtrip_generic', 'C02_header_roundtrip', 'C02_signed_flag_word', 'C02_cluster_id_default'],
-                tie=['tieA_methods', 'tieA_struct_formats', 'tieA_struct_uses', 'tieA_frame_struct_uses'],
-                lanes=['props', 'frame/frame.marshal,frame.unmarshal'], oracles=['c02']),
+                tie=['tieA_methods', 'tieA_struct_formats', 'tieA_struct_uses', 'tieA_envelope_struct_uses', 'tieA_content_header_struct_uses', 'tieA_frame_constants', 'tieA_codec_calls'],
+                lanes=['props', 'frame/frame.marshal.H,frame.unmarshal.H,frame.envelope'], oracles=['c02']),
     'C03': dict(mods=['C03'], thms=['C03_value_roundtrip', 'C03_table_roundtrip', 'C03_array_roundtrip', 'C03_type_preserved', 'C03_int_bool_exact', 'C03_keys_preserved', 'C03_decimal_value'],
-                tie=['tieA_table_mapping', 'tieA_struct_formats', 'tieA_struct_uses', 'tieA_ladder'],
+                tie=['tieA_table_mapping', 'tieA_struct_formats', 'tieA_struct_uses', 'tieA_ladder', 'tieA_codec_calls'],
                 lanes=['enc_prim', 'enc_tint', 'enc_value:ok', 'dec_prim', 'dec_value:wellformed', 'cpython_utf8', 'cpython_f32'], oracles=['c03']),
     'C04': dict(mods=['C04'], thms=['C04_value_refines_spec', 'C04_value_sorted', 'C04_args_refine_spec', 'C04_envelope_layout', 'C04_header_payload_layout', 'C04_fixed_frames'],
-                tie=['tieA_methods', 'tieA_struct_formats', 'tieA_struct_uses', 'tieA_frame_struct_uses', 'tieA_frame_constants', 'tieA_ladder'],
+                tie=['tieA_methods', 'tieA_struct_formats', 'tieA_struct_uses', 'tieA_envelope_struct_uses', 'tieA_protocol_header_struct_uses', 'tieA_content_header_struct_uses', 'tieA_frame_constants', 'tieA_ladder', 'tieA_codec_calls'],
                 lanes=['enc_prim', 'enc_tint', 'enc_value:ok', 'enc_value:any', 'args/args.marshal', 'props/props.marshal', 'frame/frame.marshal', 'cpython_sort', 'spec/spec.enc,spec.args'], oracles=['c04']),
     'C05': dict(mods=['C05'], thms=['C05_decode_agrees_value', 'C05_decode_agrees_table', 'C05_parse_wire', 'C05_no_validation', 'C05_timestamp_refused', 'C05_timestamp_ms'],
-                tie=['tieA_table_mapping', 'tieA_methods', 'tieA_struct_formats', 'tieA_struct_uses'],
-                lanes=['dec_prim', 'dec_value:wellformed', 'args/args.unmarshal', 'props/props.unmarshal,flags', 'frame/frame.unmarshal', 'spec/spec.parse'], oracles=['c05']),
+                tie=['tieA_table_mapping', 'tieA_methods', 'tieA_struct_formats', 'tieA_struct_uses', 'tieA_content_header_struct_uses', 'tieA_codec_calls'],
+                lanes=['dec_prim', 'dec_value:wellformed', 'args/args.unmarshal', 'props/props.unmarshal,flags', 'frame/frame.unmarshal.M,frame.unmarshal.H', 'spec/spec.parse'], oracles=['c05']),
     'C06': dict(mods=['C06'], thms=['C06_prefix_determines', 'C06_envelope', 'C06_stream'],
-                tie=['tieA_frame_struct_uses', 'tieA_frame_constants'], lanes=['frame/frame.unmarshal,frame.unmarshal.malformed'], oracles=['c06']),
+                tie=['tieA_envelope_struct_uses', 'tieA_protocol_header_struct_uses', 'tieA_frame_constants'], lanes=['frame/frame.unmarshal,frame.envelope'], oracles=['c06']),
     'C07': dict(mods=['C07'], thms=['C07_prefix_rejected'],
-                tie=['tieA_frame_struct_uses', 'tieA_frame_constants', 'tieA_frame_except_sites'], lanes=['frame/frame.marshal,frame.unmarshal.malformed'], oracles=['c07']),
+                tie=['tieA_envelope_struct_uses', 'tieA_protocol_header_struct_uses', 'tieA_frame_constants', 'tieA_frame_except_sites'], lanes=['frame/frame.envelope,frame.unmarshal.malformed'], oracles=['c07']),
     'C08': dict(mods=['C08'], thms=['C08_value_fuel_suffices', 'C08_table_fuel_suffices', 'C08_value_fuel_monotone', 'C08_unmarshal_terminates', 'C08_progress', 'C08_flags_progress', 'C08_result_size'],
-                tie=['tieA_table_mapping'], lanes=['dec_value:malformed', 'props/flags,props.unmarshal', 'frame/frame.unmarshal,frame.unmarshal.malformed'], oracles=['c08']),
+                tie=['tieA_table_mapping', 'tieA_content_header_struct_uses'], lanes=['dec_value:malformed', 'props/flags,props.unmarshal', 'frame/frame.unmarshal.malformed'], oracles=['c08']),
     'C09': dict(mods=['C09'], thms=['C09_inner_errors', 'C09_only_unmarshaling'],
                 tie=['tieA_frame_except_sites', 'tieA_decode_except_sites'], lanes=['dec_prim', 'dec_value:malformed', 'frame/frame.unmarshal.malformed'], oracles=['c09']),
     'C10': dict(mods=['C10'], thms=['C10_value', 'C10_accepts_only_encodable', 'C10_field_table_domain', 'C10_args'],
-                tie=['tieA_guards', 'tieA_ladder', 'tieA_struct_formats', 'tieA_struct_uses'],
+                tie=['tieA_guards', 'tieA_ladder', 'tieA_struct_formats', 'tieA_struct_uses', 'tieA_codec_calls'],
                 lanes=['enc_prim', 'enc_tint', 'enc_value:any', 'args', 'props/props.marshal,props.unmarshal'], oracles=['c10']),
     'C11': dict(mods=['C11'], thms=['C11_first_fit', 'C11_legacy', 'C11_domain', 'C11_fixed_width_guards', 'C11_fixed_width_accept', 'C11_nested_same_chain', 'C11_toggle'],
-                tie=['tieA_ladder', 'tieA_guards', 'tieA_toggle'], lanes=['enc_tint', 'enc_prim', 'api_seq'], oracles=['c11']),
+                tie=['tieA_ladder', 'tieA_guards', 'tieA_toggle'], lanes=['enc_tint', 'enc_prim/enc.prim.short_int,enc.prim.short_uint,enc.prim.long_int,enc.prim.long_uint,enc.prim.long_long_int', 'api_toggle'], oracles=['c11']),
     'C12': dict(mods=['C12'], thms=['C12_perm_invariant', 'C12_table_perm_invariant', 'C12_sorted', 'C12_sorted_perm', 'C12_order_total', 'C12_order_antisymm'],
                 tie=['tieA_no_shared_mutation'], lanes=['enc_value:ok', 'cpython_sort'], oracles=['c12']),
     'C13': dict(mods=['C13'], thms=['C13_rules_eq_spec', 'C13_constrained_classes_exist', 'C13_ctor_validates', 'C13_char_class', 'C13_char_count', 'C13_validate_iff', 'C13_marshal_revalidates', 'C13_decode_never_validates'],
@@ -71,17 +72,17 @@ REGISTRY = {
     'C14': dict(mods=['C14'], thms=['C14_catalogue_eq_spec', 'C14_count', 'C14_index', 'C14_keys_distinct', 'C14_sync_iff_replies', 'C14_replies_same_class', 'C14_python_names', 'C14_properties_eq_spec', 'C14_construct_defaults'],
                 tie=[], lanes=['ctor'], oracles=['c14']),
     'C15': dict(mods=['C15'], thms=['C15_naive_as_utc', 'C15_aware_instant', 'C15_encoding', 'C15_struct_time', 'C15_decode_utc', 'C15_roundtrip_instant'],
-                tie=['tieA_time_calls'], lanes=['enc_prim', 'dec_prim'], oracles=['c15']),
+                tie=['tieA_time_calls'], lanes=['enc_prim/enc.prim.timestamp', 'dec_prim/dec.prim.timestamp'], oracles=['c15']),
     'C16': dict(mods=['C16'], thms=['C16_history', 'C16_schedule', 'C16_no_trace'],
                 tie=['tieA_no_shared_mutation', 'tieA_no_hidden_state', 'tieA_toggle'], lanes=['api_seq', 'ctor'], oracles=['c16']),
     'C17': dict(mods=['C17'], thms=['C17_reply_codes', 'C17_class_mapping', 'C17_code_list', 'C17_constants'],
                 tie=['tieA_reply_codes', 'tieA_class_mapping', 'tieA_frame_constants'], lanes=[], oracles=['c17']),
     'C18': dict(mods=['C18'], thms=['C18_body', 'C18_heartbeat', 'C18_protocol_header'],
-                tie=['tieA_frame_struct_uses', 'tieA_frame_constants'], lanes=['frame/frame.marshal,frame.unmarshal'], oracles=['c18']),
+                tie=['tieA_envelope_struct_uses', 'tieA_protocol_header_struct_uses', 'tieA_frame_constants'], lanes=['frame/frame.marshal.B,frame.marshal.P,frame.marshal.HB,frame.unmarshal.B,frame.unmarshal.P,frame.unmarshal.HB,frame.envelope'], oracles=['c18']),
     'C19': dict(mods=['C19'], thms=['C19_slots_distinct', 'C19_mapping', 'C19_amqp_type'],
                 tie=[], lanes=['ctor'], oracles=['c19']),
     'C20': dict(mods=['C20'], thms=['C20_short', 'C20_parts', 'C20_ranges', 'C20_peek_agrees'],
-                tie=['tieA_frame_struct_uses', 'tieA_frame_constants', 'tieA_frame_except_sites'], lanes=['frame/frame.parts,frame.marshal,frame.unmarshal'], oracles=['c20']),
+                tie=['tieA_envelope_struct_uses', 'tieA_frame_constants', 'tieA_frame_except_sites'], lanes=['frame/frame.parts,frame.envelope,frame.unmarshal'], oracles=['c20']),
 }
 
 TRUSTED_BASE = [
@@ -195,13 +196,13 @@ def transitive_sources(mods):
 
 
 def write_replay(pid, payload):
-    d = os.path.join(ROOT, 'replays', pid)
+    d = os.path.join(OUT, 'replays', pid)
     os.makedirs(d, exist_ok=True)
     h = hashlib.sha1(json.dumps(payload, sort_keys=True, default=str).encode()).hexdigest()[:16]
     path = os.path.join(d, h + '.json')
     with open(path, 'w') as f:
         json.dump(payload, f, indent=1, default=str)
-    return os.path.relpath(path, ROOT)
+    return os.path.relpath(path, OUT)
 
 
 def load_known():
@@ -229,7 +230,8 @@ def run_lanes(ctx, names):
         res = fn(ctx, *parts[1:])
         res = res if isinstance(res, list) else [res]
         if keep:      # only these sub-lanes are what the property depends on
-            res = [r for r in res if r['lane'] in keep.split(',')]
+            ks = keep.split(',')
+            res = [r for r in res if any(r['lane'] == k or r['lane'].startswith(k + '.') for k in ks)]
         out += res
     return out
 
@@ -283,6 +285,7 @@ def run(pid, args, seed, work, t0):
     ctx.exhaustive_versions = ctx.thorough
     ctx.generated = gen_json
     literals = mined_literals()
+    ctx.literals = literals
     ctx.gen = gen.Gen(seed, literals)
     broken = []            # broken obligations / lanes
     # ---- proof obligations
@@ -377,8 +380,8 @@ def run(pid, args, seed, work, t0):
             broken.append({'kind': 'audit', 'what': 'leanchecker rejected the compiled modules', 'detail': out[-800:]})
             verdict_violation = True
     evidence['wall_s'] = round(time.time() - t0, 2)
-    os.makedirs(os.path.join(ROOT, 'evidence'), exist_ok=True)
-    with open(os.path.join(ROOT, 'evidence', pid + '.json'), 'w') as f:
+    os.makedirs(os.path.join(OUT, 'evidence'), exist_ok=True)
+    with open(os.path.join(OUT, 'evidence', pid + '.json'), 'w') as f:
         json.dump(evidence, f, indent=1, default=str)
     # ---- verdict
     if viols:
@@ -415,7 +418,7 @@ def mined_literals():
     import ast
     out = set()
     repo = os.environ.get('PAMQP_REPO', '/repo')
-    for fn in ('encode.py', 'decode.py', 'base.py', 'frame.py', 'header.py', 'common.py'):
+    for fn in ('encode.py', 'decode.py', 'base.py', 'frame.py', 'header.py', 'common.py', 'constants.py', 'body.py', 'heartbeat.py'):
         try:
             tree = ast.parse(open(os.path.join(repo, 'pamqp', fn), encoding='utf-8').read())
         except Exception:  # noqa
@@ -429,7 +432,7 @@ def mined_literals():
 
 def do_replay(pid, path):
     import oracles
-    p = path if os.path.isabs(path) else os.path.join(ROOT, path)
+    p = path if os.path.isabs(path) else os.path.join(OUT, path)
     data = json.load(open(p))
     if data.get('kind') == 'obligation':
         # re-check the obligations and lanes
